@@ -134,8 +134,8 @@ type termKey struct {
 
 // TermStore owns the non-constant terms of one path execution.
 type TermStore struct {
-	tab   map[termKey]*Term
-	vars  []*Term
+	tab     map[termKey]*Term
+	vars    []*Term
 	nMulSym int // symbolic*symbolic multiplications/divisions (flagged in evidence)
 }
 
